@@ -83,13 +83,13 @@ def design_class(sh):
 
 
 def compile_all(pl, i):
-    p = subprocess.run(["go", "build", "-gcflags=-e", "./d%d/..." % i], cwd=pl.root, env=pl.ctx.goenv(),
+    p = subprocess.run(["go", "build", "-gcflags=-e", "./d%d/..." % i], cwd=pl.root, env=pl.ctx.goenv(gen=True),
                        stdout=subprocess.PIPE, stderr=subprocess.STDOUT, text=True, timeout=900)
     return i, p.returncode, p.stdout
 
 
 def vet_all(pl, i):
-    p = subprocess.run(["go", "vet", "./d%d/..." % i], cwd=pl.root, env=pl.ctx.goenv(),
+    p = subprocess.run(["go", "vet", "./d%d/..." % i], cwd=pl.root, env=pl.ctx.goenv(gen=True),
                        stdout=subprocess.PIPE, stderr=subprocess.STDOUT, text=True, timeout=900)
     return i, p.returncode, p.stdout
 
